@@ -862,15 +862,6 @@ func hardFloat(r *kit.Rand) string {
 	}
 }
 
-func hardFloatNonZero(r *kit.Rand) string {
-	for {
-		s := hardFloat(r)
-		if f, err := strconv.ParseFloat(s, 64); err == nil && f != 0 {
-			return s
-		}
-	}
-}
-
 func hardNum(r *kit.Rand) string {
 	if r.Chance(1, 4) {
 		return kit.Pick(r, intEdgePool)
